@@ -20,7 +20,21 @@ pub enum FaultMode {
     Pairs,
 }
 
+/// An alternative entry point for the same requests (C17): the history is transformed and re-run, and the per-step
+/// observable effects (chunk index and offset of the returned block, its layout, allocated(), count(), remaining())
+/// must equal those of the reference run.
+#[derive(Clone)]
+pub struct Variant {
+    pub name: &'static str,
+    pub h: Option<crate::facade::Handle>,
+    /// rewrite every op (None = the variant does not apply to this history)
+    pub map: fn(&Op) -> Option<Op>,
+    /// run the whole history inside `by_value()` (BumpScope instead of Bump)
+    pub by_value_wrap: bool,
+}
+
 pub struct Space<'a> {
+    pub variants: Vec<Variant>,
     pub prop: &'a str,
     pub alphabet: Vec<Op>,
     pub depth: usize,
@@ -50,7 +64,7 @@ pub struct ViolRec {
     pub replay_args: Vec<String>,
 }
 
-#[derive(Default)]
+#[derive(Default, Debug)]
 pub struct Counters {
     pub histories: AtomicU64,
     pub fault_runs: AtomicU64,
@@ -188,7 +202,7 @@ pub fn explore(space: &Space<'_>) -> Report {
                             }
                             hist.clear();
                             hist.extend(idx.iter().map(|&i| space.alphabet[i]));
-                            let out = run_history(entry, &hist, params, space.groups, true, space.probes);
+                            let out = run_history_ex(entry, &hist, params, space.groups, true, space.probes, !space.variants.is_empty());
                             let mut advance_at = level - 1;
                             if out.ctor_unavailable {
                                 break 'hist;
@@ -239,6 +253,8 @@ pub fn explore(space: &Space<'_>) -> Report {
                                     if v.len() >= space.max_violations {
                                         stop.store(true, Ordering::Relaxed);
                                     }
+                                } else if !space.variants.is_empty() {
+                                    lockstep(space, entry, params, &hist, &out, &counters, &violations, &stop);
                                 } else if space.fault != FaultMode::None && out.calls > 0 {
                                     // every fault set over the calls this history makes
                                     fault_sweep(space, entry, params, &hist, out.calls, &counters, &violations, &stop);
@@ -325,6 +341,100 @@ pub fn explore(space: &Space<'_>) -> Report {
     }
 }
 
+fn describe_entry(e: &[u64; 5]) -> String {
+    let blk = if e[0] == u64::MAX {
+        "no block".to_string()
+    } else if e[0] == u64::MAX - 1 {
+        "block outside every chunk".to_string()
+    } else {
+        format!("block at chunk {} offset {} size {} align {}", e[0] >> 40, e[0] & ((1 << 40) - 1), e[1] >> 8, 1u64 << (e[1] & 0xff))
+    };
+    format!("{blk}, allocated {}, count {}, remaining {}", e[2], e[3] >> 40, e[3] & ((1 << 40) - 1))
+}
+
+#[allow(clippy::too_many_arguments)]
+pub fn lockstep(space: &Space<'_>, entry: &ConfigEntry, params: &RunParams, hist: &[Op], reference: &Outcome, counters: &Counters, violations: &Mutex<Vec<ViolRec>>, stop: &AtomicBool) {
+    let Some(rt) = reference.trace.as_ref() else { return };
+    let mut alt: Vec<Op> = Vec::with_capacity(hist.len() + 1);
+    for v in &space.variants {
+        alt.clear();
+        if v.by_value_wrap {
+            alt.push(Op::Enter(crate::facade::Region::ByValue));
+        }
+        let mut applicable = true;
+        for o in hist {
+            match (v.map)(o) {
+                Some(x) => alt.push(x),
+                None => {
+                    applicable = false;
+                    break;
+                }
+            }
+        }
+        if !applicable {
+            continue;
+        }
+        let mut p = *params;
+        if let Some(h) = v.h {
+            p.h = h;
+        }
+        let out = run_history_ex(entry, &alt, &p, space.groups, true, false, true);
+        if out.disabled_at.is_some() || out.ctor_unavailable {
+            continue;
+        }
+        bump(&counters.fault_runs);
+        let mut msg = None;
+        if let Some((_, _, m)) = &out.viol {
+            msg = Some(format!("variant '{}' of the history failed on its own: {m}", v.name));
+        } else if let Some(vt) = out.trace.as_ref() {
+            let shift = if v.by_value_wrap { 1 } else { 0 };
+            for (i, (a, b)) in rt.iter().zip(vt.iter()).enumerate() {
+                if a[..4] != b[..4] {
+                    let pc = a[4] as usize;
+                    let op = hist.get(pc.saturating_sub(1)).map(|o| o.to_string()).unwrap_or_default();
+                    let reserve_dyn = p.h != crate::facade::Handle::Direct && hist[..pc.min(hist.len())].iter().any(|o| matches!(o, Op::Reserve { .. } | Op::ReserveRem { .. }));
+                    msg = Some(format!(
+                        "{}entry points diverge at observation {i} (op '{op}'): reference [{}] vs variant '{}' [{}]",
+                        if reserve_dyn { "trait-object reserve: " } else { "" },
+                        describe_entry(a),
+                        v.name,
+                        describe_entry(b)
+                    ));
+                    break;
+                }
+            }
+            let _ = shift;
+            if msg.is_none() && rt.len() != vt.len() && !v.by_value_wrap {
+                msg = Some(format!("variant '{}' produced {} observations, the reference {}", v.name, vt.len(), rt.len()));
+            }
+        }
+        if let Some(m) = msg {
+            let known = m.starts_with("trait-object reserve: ");
+            let mut vl = violations.lock().unwrap();
+            if known && vl.iter().any(|x| x.msg.starts_with("trait-object reserve: ")) {
+                continue;
+            }
+            vl.push(ViolRec {
+                cfg: entry.cfg.name(),
+                params: format!("{} variant={}", params.describe(), v.name),
+                history: history_to_string(hist),
+                len: hist.len(),
+                step: 0,
+                msg: m,
+                replay_args: {
+                    let mut a = replay_args(entry, params, hist);
+                    a.push("--variant".into());
+                    a.push(v.name.into());
+                    a
+                },
+            });
+            if vl.iter().filter(|x| !x.msg.starts_with("trait-object reserve: ")).count() >= space.max_violations {
+                stop.store(true, Ordering::Relaxed);
+            }
+        }
+    }
+}
+
 #[allow(clippy::too_many_arguments)]
 fn fault_sweep(
     space: &Space<'_>,
@@ -405,7 +515,7 @@ pub fn report_json(space: &Space<'_>, r: &Report, tier: &str, seed: u64) -> J {
         .set("property_id", space.prop)
         .set("tier", tier)
         .set("seed", seed)
-        .set("level", "model_checking")
+        .set("level", if space.fault != FaultMode::None { "fault_enumeration" } else { "model_checking" })
         .set("coverage", cov)
         .set("wall_s", r.wall_s)
         .set("violations", r.violations.len())
